@@ -5,7 +5,8 @@ inside `decoder.decode_anchored(slice)` is the outcome `NextRes.panic` of the ca
 the reader's own five assertions and the chunker's two.  These are the functions the
 model driver runs (`Driver/Stream.lean`); `Proofs/StreamPanic.lean` proves them equal to
 the panic-free ones, because every state the reader hands to the decoder is a reachable
-decoder state.
+decoder state.  The one overflow-checked subtraction of `next_record_bytes` that is not
+behind an `assert!` (`offset - slice.len()`, stream_reader.rs:252) is a panic outcome too.
 
 Also: sequences of calls with one `io_block_size` PER CALL (`nextSeqB`): the argument is a
 parameter of `next_record_bytes`, so a caller may change it between calls.
@@ -43,6 +44,8 @@ def onChunkP (p : Params) (judge : Judge) (s1 : RdState) (r : Reader) (rc : Rec)
     else afterBreak s1 r rc
   | .data off bytes =>
     if bytes.isEmpty then .done .panic s1 r                        -- assert!(!slice.is_empty())
+    -- let start = offset - (slice.slice().len() as u64);  (u64 subtraction, stream_reader.rs:252)
+    else if rc.st = .skipSentinel ∧ off < bytes.length then .done .panic s1 r
     else
       let rc1 : Rec :=
         match rc.st with
